@@ -22,7 +22,7 @@ TARGET = 'checks.c20:run'
 KINDS = ['I', 'QU', 'IQU', 'IQUV']
 OPS = ['add', 'sub', 'mul', 'truediv', 'pow']
 OPERANDS = ['int', 'float', 'jnp0d', 'jnparr', 'jnp1', 'same', 'complex', 'jnpbig']
-TREES = ['arr', 'tuple', 'dict', 'nested', 'stokes', 'complex', 'mixed', 'mixed_same_shape', 'empty_tuple']
+TREES = ['np_single', 'np_nested_single', 'arr', 'tuple', 'dict', 'nested', 'stokes', 'complex', 'mixed', 'mixed_same_shape', 'empty_tuple']
 
 
 def plan(tier, seed):
@@ -261,6 +261,9 @@ def run(phase, cases, ctx):
             elif 'from_stokes' in case:
                 n = case['from_stokes']
                 if n == 'kw':
+                    r1 = StokesPyTree.from_stokes(np.array([1.0, 2.0]))   # a NumPy float64 array: canonicalised like any other leaf
+                    if not isinstance(r1, StokesIPyTree) or np.dtype(r1.i.dtype) != np.dtype(jnp.result_type(np.array([1.0]))) or not isinstance(r1.i, jax.Array):
+                        bad(case, 'from_stokes-single-numpy', f'{type(r1.i).__name__} {r1.i.dtype}')
                     r = StokesPyTree.from_stokes(Q=jnp.ones(2), U=jnp.zeros(2))
                     if not isinstance(r, StokesQUPyTree) or not same(r.q, np.ones(2)):
                         bad(case, 'from_stokes-keywords', f'{type(r).__name__}')
@@ -329,10 +332,14 @@ def run(phase, cases, ctx):
                     'nested': {'a': [jnp.asarray(a1), (jnp.asarray(a2),)], 'b': jnp.asarray(2.0, jnp.float32)},
                     'stokes': StokesQUPyTree(jnp.asarray(a1), jnp.asarray(-a1)), 'complex': (jnp.asarray(c1), jnp.asarray(a1)),
                     'mixed': {'h': jnp.asarray(a1, jnp.float16), 's': jnp.asarray(a2), 'i': jnp.asarray([1, 2], jnp.int32)}, 'empty_tuple': (),
+                    'np_single': np.array([1.0, -2.0, 3.0]), 'np_nested_single': {'a': [np.array([4, 5, 6])]},
                     'mixed_same_shape': {'a': jnp.asarray([1, 2, 3], jnp.int32), 'b': jnp.asarray(a1), 'c': jnp.asarray(a1, jnp.float16), 'd': jnp.asarray([4, 5, 6], jnp.uint8)},
                 }
                 x = trees[t]
                 leaves = jax.tree.leaves(x)
+
+                def cdt(o):   # NumPy leaves wider than the mode allows are canonicalised by JAX (float64 -> float32 with 64-bit mode off)
+                    return np.dtype(jax.dtypes.canonicalize_dtype(o.dtype))
                 h = case['helper']
                 if h == 'dot':
                     y = jax.tree.map(lambda l: (l * (2 - 1j) if jnp.iscomplexobj(l) else l * 2 + 1), x)
@@ -351,16 +358,16 @@ def run(phase, cases, ctx):
                                 bad(case, 'like-treedef', f'{jax.tree.structure(r)}')
                                 break
                             for l, o in zip(jax.tree.leaves(r), leaves):
-                                if l.shape != o.shape or l.dtype != o.dtype or not same(l, np.full(o.shape, val, dtype=o.dtype)):
-                                    bad(case, 'like-leaf', f'shape {l.shape} dtype {l.dtype} vs {o.shape} {o.dtype}')
+                                if l.shape != o.shape or np.dtype(l.dtype) != cdt(o) or not same(l, np.full(o.shape, val, dtype=cdt(o))):
+                                    bad(case, 'like-leaf', f'shape {l.shape} dtype {l.dtype} vs {o.shape} {cdt(o)}')
                                     break
                 elif h == 'as_structure':
                     s = ft.as_structure(x)
                     if jax.tree.structure(s) != jax.tree.structure(x):
                         bad(case, 'as_structure', 'treedef differs')
                     for l, o in zip(jax.tree.leaves(s), leaves):
-                        if not isinstance(l, jax.ShapeDtypeStruct) or tuple(l.shape) != tuple(o.shape) or l.dtype != o.dtype:
-                            bad(case, 'as_structure', f'{l} vs {o.shape} {o.dtype}')
+                        if not isinstance(l, jax.ShapeDtypeStruct) or tuple(l.shape) != tuple(o.shape) or np.dtype(l.dtype) != cdt(o):
+                            bad(case, 'as_structure', f'{l} vs {o.shape} {cdt(o)}')
                 elif h == 'as_promoted_dtype':
                     if leaves:
                         want = jnp.result_type(*leaves)
@@ -374,7 +381,7 @@ def run(phase, cases, ctx):
                                 elif not isinstance(l, jax.ShapeDtypeStruct) and not same(l, np.asarray(o).astype(want)):
                                     bad(case, 'as_promoted_dtype', 'values changed')
                 elif h == 'random_like':
-                    if t in ('complex', 'mixed', 'mixed_same_shape', 'empty_tuple'):
+                    if t in ('complex', 'mixed', 'mixed_same_shape', 'empty_tuple', 'np_nested_single'):
                         continue
                     key = jax.random.PRNGKey(1)
                     for fn in (lambda q: ft.normal_like(q, key), lambda q: ft.uniform_like(q, key, 2.0, 3.0)):
@@ -383,8 +390,8 @@ def run(phase, cases, ctx):
                             if jax.tree.structure(r) != jax.tree.structure(x):
                                 bad(case, 'random_like', 'treedef differs')
                             for l, o in zip(jax.tree.leaves(r), leaves):
-                                if l.shape != o.shape or l.dtype != o.dtype:
-                                    bad(case, 'random_like', f'{l.shape} {l.dtype} vs {o.shape} {o.dtype}')
+                                if l.shape != o.shape or np.dtype(l.dtype) != cdt(o):
+                                    bad(case, 'random_like', f'{l.shape} {l.dtype} vs {o.shape} {cdt(o)}')
                     r = ft.uniform_like(x, key, 2.0, 3.0)
                     if not all(np.all(np.asarray(l) >= 2.0) and np.all(np.asarray(l) <= 3.0) for l in jax.tree.leaves(r)):
                         bad(case, 'random_like', 'uniform_like outside [low, high]')
@@ -392,7 +399,7 @@ def run(phase, cases, ctx):
                     if len(ls) >= 2 and ls[0].shape == ls[1].shape and ls[0].size > 1 and same(ls[0], ls[1]):
                         bad(case, 'random_like', 'leaves share the same random key')
                 elif h == 'is_leaf':
-                    want = t == 'arr'
+                    want = t in ('arr', 'np_single')
                     if t != 'empty_tuple' and ft.is_leaf(x) != want:  # an empty container is unspecified
                         bad(case, 'is_leaf', f'is_leaf({t}) = {ft.is_leaf(x)}')
                     if not ft.is_leaf(jnp.ones(2)) or not ft.is_leaf(jax.ShapeDtypeStruct((2,), jnp.float32)) or ft.is_leaf((jnp.ones(2),)):
